@@ -92,6 +92,45 @@ mod verif_kani_qdldl {
         assert!(count == 0);
     }
 
+    // C12 "zero pivots ... are reported as errors, never as a silently wrong solution" (finding F7): the permuted upper triangle
+    // handed to _factor_inner can have an EMPTY first column (the ordering moved a column without a stored diagonal entry to the
+    // front: check_structure only looks at the un-permuted input).  The first pivot is then an exact zero: with regularisation
+    // off the factorisation must stop with ZeroPivot, with it on the pivot must be the signed perturbation - never the first
+    // stored value of some other column.  Concrete 3 x 3 structure P A P' = [[0,a,b],[a,c,0],[b,0,d]], symbolic finite values.
+    #[kani::proof]
+    #[kani::unwind(12)]
+    fn factor_inner_first_column_empty() {
+        let ap = [0usize, 0, 2, 4];
+        let ai = [0usize, 1, 0, 2];
+        let ax: [f64; 4] = kani::any();
+        let mut k = 0;
+        while k < 4 { kani::assume(ax[k].is_finite() && ax[k] != 0.0); k += 1; }
+        let mut work = [0usize; 9];
+        let mut lnz = [0usize; 3];
+        let mut etree = [0usize; 3];
+        assert!(_etree(3, &ap, &ai, &mut work, &mut lnz, &mut etree).is_ok());
+        let mut lp = [0usize; 4];
+        let mut li = [0usize; 3];
+        let mut lx = [0f64; 3];
+        let mut d = [0f64; 3];
+        let mut dinv = [0f64; 3];
+        let mut bwork = [false; 3];
+        let mut fwork = [0f64; 3];
+        let dsigns = [1i8, 1, 1];
+        let mut count = 0usize;
+        let reg: bool = kani::any();
+        assert!(lnz[0] + lnz[1] + lnz[2] <= 3);
+        let r = _factor_inner(3, &ap, &ai, &ax, &mut lp, &mut li, &mut lx, &mut d, &mut dinv, &lnz, &etree,
+                              &mut bwork, &mut work, &mut fwork, false, &dsigns, reg, 1e-12, 1e-7, &mut count);
+        if !reg {
+            assert!(matches!(r, Err(QDLDLError::ZeroPivot)));
+        } else {
+            assert!(d[0] == 1e-7 && count >= 1);
+        }
+        kani::cover!(reg);
+        kani::cover!(!reg);
+    }
+
     // C12 "non-square, non-upper-triangular or empty-column inputs are reported as errors": check_structure accepts a matrix
     // iff it is square, stores nothing below the diagonal and has no empty column.  Bounded: n = 3 columns, 4 stored
     // entries, symbolic m in {2, 3}, symbolic column pointers and row indices.  (Stand-in that does not depend on the loop
